@@ -910,6 +910,36 @@ def extract_h1_reuse(repo, parents):
           and "self._state = HTTPConnectionState.ACTIVE" in ast.unparse(gate[0].body) and "ConnectionNotAvailable" in ast.unparse(gate[0].orelse))
     out += ["/-- the gate: only a NEW or IDLE connection becomes ACTIVE, under the state lock; otherwise ConnectionNotAvailable -/",
             "def h1GateFromNewOrIdleOnly : Bool := " + ("true" if ok else "false")]
+    # the test-and-set of the gate is one critical section of the connection's state lock (what makes it atomic between threads)
+    locked = False
+    if len(gate) == 1:
+        for w in ast.walk(fn3):
+            if isinstance(w, (ast.AsyncWith, ast.With)) and [ast.unparse(i.context_expr) for i in w.items] == ["self._state_lock"] \
+                    and any(gate[0] is d for d in ast.walk(w)):
+                locked = True
+    out += ["/-- the gate's test-and-set is inside `async with self._state_lock:` -/",
+            "def h1GateUnderStateLock : Bool := " + ("true" if locked else "false")]
+    # HTTP/2: when does a connection offer itself to further requests?
+    tree2 = _parse(repo, "httpcore/_async/http2.py")
+    fa = _find_func(tree2, "is_available", cls="AsyncHTTP2Connection")
+    rets = [n for n in fa.body if isinstance(n, ast.Return)]
+    if len(fa.body) != 1 or len(rets) != 1:
+        raise ExtractError("http2.is_available: a single return statement expected")
+    names = {"self._state != HTTPConnectionState.CLOSED": "(!closed)", "self._connection_error": "connErr",
+             "self._used_all_stream_ids": "usedAll", "self._h2_state.state_machine.state == h2.connection.ConnectionState.CLOSED": "h2Closed"}
+
+    def tr(e):
+        t = ast.unparse(e)
+        if t in names:
+            return names[t]
+        if isinstance(e, ast.BoolOp):
+            op = " && " if isinstance(e.op, ast.And) else " || "
+            return "(" + op.join(tr(v) for v in e.values) + ")"
+        if isinstance(e, ast.UnaryOp) and isinstance(e.op, ast.Not):
+            return "(!" + tr(e.operand) + ")"
+        raise ExtractError(f"http2.is_available: sub-expression not recognised: {t}")
+    out += [f"/-- HTTP/2 `is_available`: `{ast.unparse(rets[0].value)}` -/",
+            f"def h2Available (closed connErr usedAll h2Closed : Bool) : Bool := {tr(rets[0].value)}"]
     fn4 = _find_func(tree, "aclose", cls=cls)
     body = [ast.unparse(n) for n in fn4.body if not (isinstance(n, ast.Expr) and isinstance(n.value, ast.Constant))]
     first = body == ["self._state = HTTPConnectionState.CLOSED", "await self._network_stream.aclose()"]
